@@ -29,7 +29,8 @@ var insideSpecs = []fileSpec{
 	{"home.htm", 45, false},
 	{"ity", 0, true}, {"ity/page.html", 50, false}, {".env", 40, false}, {"app.js", 40, false},
 	{"sp ace.txt", 40, false}, {"dot..file", 40, false},
-	{"public%2Fa.txt", 40, false}, // a name that a second percent-decoding would turn into a path
+	{"public%2Fa.txt", 40, false},                                 // a name that a second percent-decoding would turn into a path
+	{"sub/public", 0, true}, {"sub/public/nested.txt", 40, false}, // the prefix string again, deeper in the tree
 }
 
 // devEntry is a non-regular, non-directory entry inside the served directory (a symlink to
@@ -277,6 +278,22 @@ func (d *disk) containedIn(rel string, body []byte) bool {
 	for _, v := range f.versions {
 		if len(v) > 0 && strings.Contains(string(v), string(body)) {
 			return true
+		}
+	}
+	return false
+}
+
+// changedBetween reports whether rel (or anything above it) was replaced, removed or swapped
+// between the two event stamps.
+func (d *disk) changedBetween(rel string, from, to int64) bool {
+	for name, f := range d.files {
+		if name != rel && !strings.HasPrefix(rel, name+"/") {
+			continue
+		}
+		for _, u := range f.until {
+			if u != 0 && u > from && u < to {
+				return true
+			}
 		}
 	}
 	return false
